@@ -33,7 +33,7 @@ CHECKS['C14'] = dict(
 CHECKS['C15'] = dict(
     category='other',
     technique='contract-based deductive verification of the pixel-codec kernels (pyvc bit-vector VCs over the real '
-              'loop bodies and slice assignments, z3); bounded container round trip as stand-in',
+              'loop bodies and slice assignments, z3); bounded container round trip and frame-to-frame copies as stand-in',
     text='For all 20 writable uncompressed formats the real save and load code is executed symbolically in sequence '
          'on buffers of arbitrary size: save-then-load equals the documented quantisation, load-then-save reproduces '
          'the stored bytes, each iteration touches only its own pixel, every stored value fits a byte; Frame pixel '
@@ -45,7 +45,8 @@ CHECKS['C15'] = dict(
 CHECKS['C11'] = dict(
     category='other',
     technique='contract-based deductive verification of the codec kernels (pyvc segment lemmas over the real '
-              'encoder/decoder loop bodies, quantified array obligations, z3); bounded write->read pairs as stand-in',
+              'encoder/decoder loop bodies, quantified array obligations, z3); bounded write->read pairs, hand-built '
+              'face / node / entity cases as stand-in',
     text='Texture name block: one arbitrary iteration of the real _lmp_write_textures loop followed by the reader\'s '
          'terminator search is proved, for every name without NUL and every earlier block content, to read back exactly '
          'the name from the offset written, to only append to the block, and to reject exactly the names of 128+ '
@@ -62,7 +63,8 @@ CHECKS['C11'] = dict(
 CHECKS['C10'] = dict(
     category='other',
     technique='contract-based deductive verification: pyvc proof of the ParsedLump get/set protocol + syntactic '
-              'effect/ordering obligations for every lump reader and writer; bounded access-subset stand-in',
+              'effect/ordering obligations for every lump reader and writer + the run-length codec lemmas of C11 re-run '
+              '(visibility rows); bounded access-subset stand-in on the sample and a hand-enriched map',
     text='ParsedLump.__get__/__set__ are proved against the lazy-view contract (cached value returned with no effect; '
          'first access parses the raw data once, caches, empties exactly the view\'s own lumps). For all 21 views the '
          'frame obligations that make access order irrelevant are decided on the AST: each writer takes its value from '
@@ -206,7 +208,7 @@ CHECKS['C18'] = dict(
     category='proof',
     technique='contract-based deductive verification: pyvc proof of RawFileSystem._resolve_path for every input string '
               '(z3 strings, abspath/join uninterpreted) + syntactic obligations that every file-system primitive receives '
-              'a resolved path; bounded directory-tree stand-in',
+              'a resolved path and that no lookup is memoised across filesystems; bounded directory-tree stand-in',
     text='With path constraint on, _resolve_path is proved to return only the root itself or a path that starts with '
          'root + separator, and to raise RootEscapeError exactly otherwise - for every input string, with os.path.abspath '
          'and join left uninterpreted. Every open/os.walk/os.path.isfile in RawFileSystem is shown (AST) to take its '
